@@ -127,10 +127,13 @@ def check_case(spec):
     seen = set()
     nsplits = 0
     lists = [[]] + list(split_lists(spec))
+    whole = None
     for cuts in lists:
         nsplits += 1
         obs = drive(spec, cuts)
-        if obs == exp:
+        if whole is None:
+            whole = obs
+        if obs == exp or (cuts and obs == whole):    # same deviation as the whole delivery: reported there
             continue
         label = "whole" if not cuts else "split"
         if "exc" in obs:
